@@ -1,15 +1,16 @@
 _A = ['op_literal', 'op_drop', 'op_drop_n', 'op_dup', 'op_loop', 'op_jump_if_false', 'op_jump', 'op_negate', 'op_not',
       'op_add', 'op_sub', 'op_mul', 'op_div', 'op_and', 'op_or', 'op_less', 'op_less_equal', 'op_greater', 'op_greater_equal',
-      'op_equal', 'op_not_equal', 'op_constant', 'op_constant_long']
+      'op_equal', 'op_not_equal', 'op_constant', 'op_constant_long', 'op_send', 'op_receive']
 
 UNIT = dict(
   name='ops',
-  properties=['C01', 'C16', 'C06'],
+  properties=['C01', 'C16', 'C06', 'C07'],
   shared=[],
   items=[
     ('laythe_core/src/object/mod.rs', ['enum ObjectKind']),
     ('laythe_core/src/utils.rs', ['fn is_falsey']),
     ('laythe_vm/src/vm/mod.rs', ['enum ExecutionSignal']),
+    ('laythe_core/src/object/channel/mod.rs', ['enum SendResult', 'enum ReceiveResult']),
     ('laythe_vm/src/vm/ops.rs', [('impl Vm', _A)]),
   ],
   rewrites=[
@@ -17,6 +18,16 @@ UNIT = dict(
     ('R11', 'enum ExecutionSignal', dict(drop=['Debug'], add=['Structural'])),
     ('R7', 'enum ExecutionSignal', dict(pat='enum ExecutionSignal', rep='pub enum ExecutionSignal', count=1)),
     ('R7', 'Vm::*', dict(pat='pub(super) unsafe fn', rep='pub unsafe fn', count=1)),
+    ('R11', 'enum SendResult', dict(drop=['Debug', 'PartialEq', 'Eq', 'Clone'])),
+    ('R11', 'enum ReceiveResult', dict(drop=['Debug', 'PartialEq', 'Eq', 'Clone'])),
+    ('R6', 'enum SendResult', dict(pat='Option<Ref<ChannelWaiter>>', rep='Option<WaiterRef>', count=2)),
+    ('R6', 'enum ReceiveResult', dict(pat='Option<Ref<ChannelWaiter>>', rep='Option<WaiterRef>', count=2)),
+    # R9: the fiber is a GC pointer copied into a local; in the model it is a field of Vm (allocator / root-context arguments dropped)
+    ('R9', 'Vm::op_send', dict(pat='let mut fiber = self.fiber;\n      fiber.add_used_channel(self.gc.borrow_mut(), self, channel);', rep='self.fiber.add_used_channel(channel);', count=1)),
+    ('R9', 'Vm::op_receive', dict(pat='let mut fiber = self.fiber;\n      fiber.add_used_channel(self.gc.borrow_mut(), self, channel);', rep='self.fiber.add_used_channel(channel);', count=1)),
+    # R4: Option::or_else with a closure that captures &mut self
+    ('R4', 'Vm::op_send', dict(pat=r'(\w+)\.or_else\(\|\|\s*self\.fiber\.get_runnable\(\)\)', rep=r'(match \1 { Some(verif_w) => Some(verif_w), None => self.fiber.get_runnable() })', regex=True, optional=True)),
+    ('R4', 'Vm::op_receive', dict(pat=r'(\w+)\.or_else\(\|\|\s*self\.fiber\.get_runnable\(\)\)', rep=r'(match \1 { Some(verif_w) => Some(verif_w), None => self.fiber.get_runnable() })', regex=True, optional=True)),
     # R14: float operators, string content comparison and Value equality routed through named stubs (generic, order-preserving)
     ('R14', 'Vm::*'),
     # the String::with_capacity + push_str + push_str concatenation buffer (str byte reasoning unsupported)
